@@ -31,6 +31,9 @@ MUTS = {
         (CODEC, "      size_t len = detail::safe_strnlen(arg, N) + 1u;", "      size_t len = detail::safe_strnlen(arg, N - 1) + 1u;")]),
     "c04_optional_flag_not_counted": ("C04", "break", [
         ("include/quill/std/Optional.h", "    size_t total_size{sizeof(bool)};\n\n    if (arg.has_value())", "    size_t total_size{arg.has_value() ? sizeof(bool) : 0};\n\n    if (arg.has_value())")]),
+    "c04_unordered_set_drops_an_element": ("C04", "break", [   # must stay a VIOLATION although unordered order is a known finding
+        ("include/quill/std/UnorderedSet.h", "        arg.emplace(Codec<Key>::decode_arg(buffer));\n      }\n",
+         "        arg.emplace(Codec<Key>::decode_arg(buffer));\n      }\n      if (arg.size() > 1) { arg.erase(arg.begin()); }\n")]),
     # ---- C04 / C11, benign
     "benign_inline_capacity_8": ("C04+C11", "benign", [
         ("include/quill/core/InlinedVector.h", "using SizeCacheVector = InlinedVector<uint32_t, 12>;", "using SizeCacheVector = InlinedVector<uint32_t, 8>;")]),
